@@ -20,6 +20,9 @@ def ListOfDicts_head (truth : Term → Bool) (n_is_None : Bool) (dataiter_DEFAUL
     let n' : Int := (pmin len_self n);
     Out.ret [] (Term.app "._new" [(Term.sym "self"), (Term.app "getitem" [(Term.sym "self"), (Term.slice none (some n'))])])
 
+/-- the decorators of dataiter/list_of_dicts.py: ListOfDicts.head, outermost first -/
+def ListOfDicts_head_decorators : List String := []
+
 /-- dataiter/list_of_dicts.py: ListOfDicts.tail (sha256 of the function source: 7f6d393a90721779) -/
 def ListOfDicts_tail (truth : Term → Bool) (n_is_None : Bool) (dataiter_DEFAULT_PEEK_ITEMS : Int) (len_self : Int) (n : Int) : Out :=
   if n_is_None then
@@ -29,6 +32,9 @@ def ListOfDicts_tail (truth : Term → Bool) (n_is_None : Bool) (dataiter_DEFAUL
   else
     let n' : Int := (pmin len_self n);
     Out.ret [] (Term.app "._new" [(Term.sym "self"), (Term.app "getitem" [(Term.sym "self"), (Term.slice (some (len_self - n')) none)])])
+
+/-- the decorators of dataiter/list_of_dicts.py: ListOfDicts.tail, outermost first -/
+def ListOfDicts_tail_decorators : List String := []
 
 /-- dataiter/list_of_dicts.py: ListOfDicts.filter (sha256 of the function source: 31c775b48c97c0e5) -/
 def ListOfDicts_filter (truth : Term → Bool) : Out :=
@@ -45,6 +51,9 @@ def ListOfDicts_filter (truth : Term → Bool) : Out :=
     else
       Out.fall []
 
+/-- the decorators of dataiter/list_of_dicts.py: ListOfDicts.filter, outermost first -/
+def ListOfDicts_filter_decorators : List String := ["deco.new_from_generator"]
+
 /-- dataiter/list_of_dicts.py: ListOfDicts.filter_out (sha256 of the function source: 724c8d5816387522) -/
 def ListOfDicts_filter_out (truth : Term → Bool) : Out :=
   if truth (Term.app "callable" [(Term.sym "function")]) then
@@ -59,6 +68,9 @@ def ListOfDicts_filter_out (truth : Term → Bool) : Out :=
       Out.fall [eff0]
     else
       Out.fall []
+
+/-- the decorators of dataiter/list_of_dicts.py: ListOfDicts.filter_out, outermost first -/
+def ListOfDicts_filter_out_decorators : List String := ["deco.new_from_generator"]
 
 /-- dataiter/list_of_dicts.py: ListOfDicts.unique (sha256 of the function source: fa2d027f167b0fd0) -/
 def ListOfDicts_unique (truth : Term → Bool) : Out :=
@@ -81,11 +93,164 @@ def ListOfDicts_unique (truth : Term → Bool) : Out :=
       let id' : Term := (Term.app "value-after-loop" [(Term.sym "id"), eff0]);
       Out.fall [eff0]
 
+/-- the decorators of dataiter/list_of_dicts.py: ListOfDicts.unique, outermost first -/
+def ListOfDicts_unique_decorators : List String := ["deco.new_from_generator"]
+
 /-- dataiter/list_of_dicts.py: ListOfDicts.sort (sha256 of the function source: ff89d8a4564797f0) -/
 def ListOfDicts_sort (truth : Term → Bool) : Out :=
   let data' : Term := (Term.sym "self");
   let eff0 : Term := (Term.app "for" [(Term.app "tuple" [(Term.sym "key"), (Term.sym "dir")]), (Term.app "getitem" [(Term.app "list" [(Term.app ".items" [(Term.sym "key_dir_pairs")])]), (Term.app "slice" [(Term.sym "None"), (Term.sym "None"), (Term.int (-(1 : Int)))])]), (Term.app "block" [(Term.app "if" [(Term.app "NotIn" [(Term.sym "dir"), (Term.app "list" [(Term.int (1 : Int)), (Term.int (-(1 : Int)))])]), (Term.app "block" [(Term.app "raise" [(Term.sym "ValueError")])]), (Term.app "block" [])]), (Term.app "def" [(Term.sym "sort_key"), (Term.app "params" [(Term.sym "item")]), (Term.app "block" [(Term.app "return" [(Term.app "ifexp" [(Term.app "Gt" [(Term.sym "dir"), (Term.int (0 : Int))]), (Term.app "tuple" [(Term.app "Is" [(Term.app "getitem" [(Term.sym "item"), (Term.sym "key")]), (Term.sym "None")]), (Term.app "getitem" [(Term.sym "item"), (Term.sym "key")])]), (Term.app "tuple" [(Term.app "IsNot" [(Term.app "getitem" [(Term.sym "item"), (Term.sym "key")]), (Term.sym "None")]), (Term.app "getitem" [(Term.sym "item"), (Term.sym "key")])])])])])]), (Term.app "assign" [(Term.sym "data"), (Term.app "sorted" [(Term.sym "data"), (Term.app "=key" [(Term.sym "sort_key")]), (Term.app "=reverse" [(Term.app "Lt" [(Term.sym "dir"), (Term.int (0 : Int))])])])])]), (Term.app "init" [(Term.sym "data"), data'])]);
   let data' : Term := (Term.app "value-after-loop" [(Term.sym "data"), eff0]);
   Out.ret [eff0] (Term.app "._new" [(Term.sym "self"), data'])
+
+/-- the decorators of dataiter/list_of_dicts.py: ListOfDicts.sort, outermost first -/
+def ListOfDicts_sort_decorators : List String := []
+
+/-- dataiter/list_of_dicts.py: ListOfDicts.modify (sha256 of the function source: 193088e74915f420) -/
+def ListOfDicts_modify (truth : Term → Bool) : Out :=
+  let key_function_pairs' : Term := (Term.app ".items" [(Term.sym "key_function_pairs")]);
+  let eff0 : Term := (Term.app "for" [(Term.sym "item"), (Term.sym "self"), (Term.app "block" [(Term.app "for" [(Term.app "tuple" [(Term.sym "key"), (Term.sym "function")]), key_function_pairs', (Term.app "block" [(Term.app "store" [(Term.app "getitem" [(Term.sym "item"), (Term.sym "key")]), (Term.app "call" [(Term.sym "function"), (Term.sym "item")])])])]), (Term.app "yield" [(Term.sym "item")])])]);
+  Out.fall [eff0]
+
+/-- the decorators of dataiter/list_of_dicts.py: ListOfDicts.modify, outermost first -/
+def ListOfDicts_modify_decorators : List String := ["deco.obsoletes", "deco.new_from_generator"]
+
+/-- dataiter/list_of_dicts.py: ListOfDicts.modify_if (sha256 of the function source: e9940e0a6aa6f8a5) -/
+def ListOfDicts_modify_if (truth : Term → Bool) : Out :=
+  let key_function_pairs' : Term := (Term.app ".items" [(Term.sym "key_function_pairs")]);
+  let eff0 : Term := (Term.app "for" [(Term.sym "item"), (Term.sym "self"), (Term.app "block" [(Term.app "if" [(Term.app "predicate" [(Term.sym "item")]), (Term.app "block" [(Term.app "for" [(Term.app "tuple" [(Term.sym "key"), (Term.sym "function")]), key_function_pairs', (Term.app "block" [(Term.app "store" [(Term.app "getitem" [(Term.sym "item"), (Term.sym "key")]), (Term.app "call" [(Term.sym "function"), (Term.sym "item")])])])])]), (Term.app "block" [])]), (Term.app "yield" [(Term.sym "item")])])]);
+  Out.fall [eff0]
+
+/-- the decorators of dataiter/list_of_dicts.py: ListOfDicts.modify_if, outermost first -/
+def ListOfDicts_modify_if_decorators : List String := ["deco.obsoletes", "deco.new_from_generator"]
+
+/-- dataiter/list_of_dicts.py: ListOfDicts.fill_missing_keys (sha256 of the function source: 0c38d21a4f15d752) -/
+def ListOfDicts_fill_missing_keys (truth : Term → Bool) : Out :=
+  if (!truth (Term.sym "key_value_pairs")) then
+    let key_value_pairs' : Term := (Term.app "dict.fromkeys" [(Term.app ".keys" [(Term.sym "self")]), (Term.sym "None")]);
+    let key_value_pairs' : Term := (Term.app ".items" [key_value_pairs']);
+    let eff0 : Term := (Term.app "for" [(Term.sym "item"), (Term.sym "self"), (Term.app "block" [(Term.app "for" [(Term.app "tuple" [(Term.sym "key"), (Term.sym "value")]), key_value_pairs', (Term.app "block" [(Term.app "if" [(Term.app "NotIn" [(Term.sym "key"), (Term.sym "item")]), (Term.app "block" [(Term.app "store" [(Term.app "getitem" [(Term.sym "item"), (Term.sym "key")]), (Term.sym "value")])]), (Term.app "block" [])])])]), (Term.app "yield" [(Term.sym "item")])])]);
+    Out.fall [eff0]
+  else
+    let key_value_pairs' : Term := (Term.app ".items" [(Term.sym "key_value_pairs")]);
+    let eff0 : Term := (Term.app "for" [(Term.sym "item"), (Term.sym "self"), (Term.app "block" [(Term.app "for" [(Term.app "tuple" [(Term.sym "key"), (Term.sym "value")]), key_value_pairs', (Term.app "block" [(Term.app "if" [(Term.app "NotIn" [(Term.sym "key"), (Term.sym "item")]), (Term.app "block" [(Term.app "store" [(Term.app "getitem" [(Term.sym "item"), (Term.sym "key")]), (Term.sym "value")])]), (Term.app "block" [])])])]), (Term.app "yield" [(Term.sym "item")])])]);
+    Out.fall [eff0]
+
+/-- the decorators of dataiter/list_of_dicts.py: ListOfDicts.fill_missing_keys, outermost first -/
+def ListOfDicts_fill_missing_keys_decorators : List String := ["deco.obsoletes", "deco.new_from_generator"]
+
+/-- dataiter/list_of_dicts.py: ListOfDicts.select (sha256 of the function source: 2bc5415f4be84868) -/
+def ListOfDicts_select (truth : Term → Bool) : Out :=
+  let eff0 : Term := (Term.app "for" [(Term.sym "item"), (Term.sym "self"), (Term.app "block" [(Term.app "yield" [(Term.app "AttributeDict" [(Term.app "DictComp" [(Term.app "pair" [(Term.sym "x"), (Term.app "getitem" [(Term.sym "item"), (Term.sym "x")])]), (Term.app "in" [(Term.sym "x"), (Term.sym "keys"), (Term.app "if" [(Term.app "In" [(Term.sym "x"), (Term.sym "item")])])])])])])])]);
+  Out.fall [eff0]
+
+/-- the decorators of dataiter/list_of_dicts.py: ListOfDicts.select, outermost first -/
+def ListOfDicts_select_decorators : List String := ["deco.obsoletes", "deco.new_from_generator"]
+
+/-- dataiter/list_of_dicts.py: ListOfDicts.unselect (sha256 of the function source: f3ada5a83c89cd2e) -/
+def ListOfDicts_unselect (truth : Term → Bool) : Out :=
+  let eff0 : Term := (Term.app "for" [(Term.sym "item"), (Term.sym "self"), (Term.app "block" [(Term.app "for" [(Term.sym "key"), (Term.sym "keys"), (Term.app "block" [(Term.app "if" [(Term.app "In" [(Term.sym "key"), (Term.sym "item")]), (Term.app "block" [(Term.app "del" [(Term.app "getitem" [(Term.sym "item"), (Term.sym "key")])])]), (Term.app "block" [])])])]), (Term.app "yield" [(Term.sym "item")])])]);
+  Out.fall [eff0]
+
+/-- the decorators of dataiter/list_of_dicts.py: ListOfDicts.unselect, outermost first -/
+def ListOfDicts_unselect_decorators : List String := ["deco.obsoletes", "deco.new_from_generator"]
+
+/-- dataiter/list_of_dicts.py: ListOfDicts.rename (sha256 of the function source: 72f79345b7a532f7) -/
+def ListOfDicts_rename (truth : Term → Bool) : Out :=
+  let renames' : Term := (Term.app "DictComp" [(Term.app "pair" [(Term.sym "v"), (Term.sym "k")]), (Term.app "in" [(Term.app "tuple" [(Term.sym "k"), (Term.sym "v")]), (Term.app ".items" [(Term.sym "to_from_pairs")]), (Term.app "if" [])])]);
+  let eff0 : Term := (Term.app "for" [(Term.sym "item"), (Term.sym "self"), (Term.app "block" [(Term.app "assign" [(Term.sym "keys"), (Term.app "ListComp" [(Term.app ".get" [renames', (Term.sym "x"), (Term.sym "x")]), (Term.app "in" [(Term.sym "x"), (Term.app ".keys" [(Term.sym "item")]), (Term.app "if" [])])])]), (Term.app "yield" [(Term.app "AttributeDict" [(Term.app "zip" [(Term.sym "keys"), (Term.app ".values" [(Term.sym "item")])])])])])]);
+  let keys' : Term := (Term.app "value-after-loop" [(Term.sym "keys"), eff0]);
+  Out.fall [eff0]
+
+/-- the decorators of dataiter/list_of_dicts.py: ListOfDicts.rename, outermost first -/
+def ListOfDicts_rename_decorators : List String := ["deco.obsoletes", "deco.new_from_generator"]
+
+/-- dataiter/list_of_dicts.py: ListOfDicts.append (sha256 of the function source: f0aac02460a254c6) -/
+def ListOfDicts_append (truth : Term → Bool) : Out :=
+  if (!truth (Term.app "isinstance" [(Term.sym "item"), (Term.sym "AttributeDict")])) then
+    let item' : Term := (Term.app "AttributeDict" [(Term.sym "item")]);
+    let eff0 : Term := (Term.app "yield-from" [(Term.app "itertools.chain" [(Term.sym "self"), (Term.app "list" [item'])])]);
+    Out.fall [eff0]
+  else
+    let eff0 : Term := (Term.app "yield-from" [(Term.app "itertools.chain" [(Term.sym "self"), (Term.app "list" [(Term.sym "item")])])]);
+    Out.fall [eff0]
+
+/-- the decorators of dataiter/list_of_dicts.py: ListOfDicts.append, outermost first -/
+def ListOfDicts_append_decorators : List String := ["deco.new_from_generator"]
+
+/-- dataiter/list_of_dicts.py: ListOfDicts.extend (sha256 of the function source: 8862b06c0b212d1d) -/
+def ListOfDicts_extend (truth : Term → Bool) : Out :=
+  if (!truth (Term.app "isinstance" [(Term.sym "other"), (Term.app ".__class__" [(Term.sym "self")])])) then
+    let other' : Term := (Term.app ".__class__" [(Term.sym "self"), (Term.sym "other")]);
+    let eff0 : Term := (Term.app "yield-from" [(Term.app "itertools.chain" [(Term.sym "self"), other'])]);
+    Out.fall [eff0]
+  else
+    let eff0 : Term := (Term.app "yield-from" [(Term.app "itertools.chain" [(Term.sym "self"), (Term.sym "other")])]);
+    Out.fall [eff0]
+
+/-- the decorators of dataiter/list_of_dicts.py: ListOfDicts.extend, outermost first -/
+def ListOfDicts_extend_decorators : List String := ["deco.new_from_generator"]
+
+/-- dataiter/list_of_dicts.py: ListOfDicts.insert (sha256 of the function source: 1792b768d97c6586) -/
+def ListOfDicts_insert (truth : Term → Bool) : Out :=
+  if (!truth (Term.app "isinstance" [(Term.sym "item"), (Term.sym "AttributeDict")])) then
+    let item' : Term := (Term.app "AttributeDict" [(Term.sym "item")]);
+    let items' : Term := (Term.app "list" [(Term.sym "self")]);
+    let eff0 : Term := (Term.app ".insert" [items', (Term.sym "index"), item']);
+    let eff1 : Term := (Term.app "yield-from" [items']);
+    Out.fall [eff0, eff1]
+  else
+    let items' : Term := (Term.app "list" [(Term.sym "self")]);
+    let eff0 : Term := (Term.app ".insert" [items', (Term.sym "index"), (Term.sym "item")]);
+    let eff1 : Term := (Term.app "yield-from" [items']);
+    Out.fall [eff0, eff1]
+
+/-- the decorators of dataiter/list_of_dicts.py: ListOfDicts.insert, outermost first -/
+def ListOfDicts_insert_decorators : List String := ["deco.new_from_generator"]
+
+/-- dataiter/list_of_dicts.py: ListOfDicts.reverse (sha256 of the function source: 8accc042c92a780d) -/
+def ListOfDicts_reverse (truth : Term → Bool) : Out :=
+  let eff0 : Term := (Term.app "yield-from" [(Term.app "reversed" [(Term.sym "self")])]);
+  Out.fall [eff0]
+
+/-- the decorators of dataiter/list_of_dicts.py: ListOfDicts.reverse, outermost first -/
+def ListOfDicts_reverse_decorators : List String := ["deco.new_from_generator"]
+
+/-- dataiter/list_of_dicts.py: ListOfDicts.__add__ (sha256 of the function source: 40588e0cbd7aba14) -/
+def ListOfDicts_add (truth : Term → Bool) : Out :=
+  if (!truth (Term.app "isinstance" [(Term.sym "other"), (Term.sym "ListOfDicts")])) then
+    Out.raise [] "TypeError"
+  else
+    let eff0 : Term := (Term.app "yield-from" [(Term.app "itertools.chain" [(Term.sym "self"), (Term.sym "other")])]);
+    Out.fall [eff0]
+
+/-- the decorators of dataiter/list_of_dicts.py: ListOfDicts.__add__, outermost first -/
+def ListOfDicts_add_decorators : List String := ["deco.new_from_generator"]
+
+/-- dataiter/list_of_dicts.py: ListOfDicts.__mul__ (sha256 of the function source: f14316ed33ac8fc9) -/
+def ListOfDicts_mul (truth : Term → Bool) : Out :=
+  if (!truth (Term.app "isinstance" [(Term.sym "other"), (Term.sym "int")])) then
+    Out.raise [] "TypeError"
+  else
+    let eff0 : Term := (Term.app "for" [(Term.sym "i"), (Term.app "range" [(Term.sym "other")]), (Term.app "block" [(Term.app "yield-from" [(Term.sym "self")])])]);
+    Out.fall [eff0]
+
+/-- the decorators of dataiter/list_of_dicts.py: ListOfDicts.__mul__, outermost first -/
+def ListOfDicts_mul_decorators : List String := ["deco.new_from_generator"]
+
+/-- dataiter/list_of_dicts.py: ListOfDicts.__rmul__ (sha256 of the function source: eb7aafc36c1b7381) -/
+def ListOfDicts_rmul (truth : Term → Bool) : Out :=
+  Out.ret [] (Term.app ".__mul__" [(Term.sym "self"), (Term.sym "other")])
+
+/-- the decorators of dataiter/list_of_dicts.py: ListOfDicts.__rmul__, outermost first -/
+def ListOfDicts_rmul_decorators : List String := []
+
+/-- dataiter/list_of_dicts.py: ListOfDicts.__getitem__ (sha256 of the function source: 718d0b7dc6e2afed) -/
+def ListOfDicts_getitem (truth : Term → Bool) : Out :=
+  let value' : Term := (Term.app "super().__getitem__" [(Term.sym "index")]);
+  Out.ret [] (if truth (Term.app "isinstance" [value', (Term.sym "list")]) then (Term.app "._new" [(Term.sym "self"), value']) else value')
+
+/-- the decorators of dataiter/list_of_dicts.py: ListOfDicts.__getitem__, outermost first -/
+def ListOfDicts_getitem_decorators : List String := []
 
 end DI.Gen
